@@ -47,6 +47,14 @@ CHECKS = {
          'Every function/method of strings, strconv, math, bytes, base64, filepath, regexp, json, string and byte_slice methods (discovered from the live modules; an unknown function is an engine error) is called with every argument tuple over its pools through the object API and through scripts and compared with the Go standard library; every codec round-trips every pool value and rejects exactly the malformed inputs (all strings <= 4 over a 6-symbol alphabet) that Go rejects; json codec and json module must agree.',
          'Trusted: the table of Go closures in internal/c19/table.go. Four known findings (json codec vs module on byte_slice and nil; invalid UTF-8 through encoding/json).',
          'E5 enum', '4 C19'),
+ 'C10': ('model_checking', 'stateless model checking of the implementation: controlled scheduler over the hooked goroutines, DFS over all schedules up to a preemption bound, happens-before race detection on hooked accesses',
+         'Each producer/consumer scenario (senders x receivers x buffer x messages x 4 receive forms x 3 spawn forms) is run as real risor evaluations under the controlled scheduler internal/dsched; every schedule with at most 2 preemptions is enumerated and every complete execution is judged: received multiset == sent multiset, per-sender order per receiver, wait() values, nil after close, no deadlock, no leftover task, no unordered access to the channel fields.',
+         'Trusted: the scheduler owns every blocking operation through the verif hooks (channel send/receive/close, thread wait, spawn/start/end, context wait, halt store); instruction-level interleavings inside one VM step and memory-model effects below hook granularity are not modelled. 10^4-message runs are out of reach (DESIGN section 5).',
+         'E3 dsched', '4 C10'),
+ 'C14': ('model_checking', 'explicit-state BFS over import-statement histories against a reference model, plus bounded-exhaustive enumeration of import path texts x spellings x importers with sentinels outside the root',
+         'Part A: every path text of <= 3 (thorough 4) segments over a hostile segment alphabet x 16 import spellings x 3 importers (recording fs.FS, naive joining fs.FS, local importer on a real tree) with sentinel modules planted at every reachable outside location. Part B: every sequence of <= 3 (thorough 4) import statements over a 15-letter alphabet on a module tree with shared names, a diamond and a failing module; each sequence is executed on the real implementation with both importers and every probe is compared with a reference model (module bodies run exactly once, aliases share state, globals are separate).',
+         'Trusted: the reference model of module state in internal/c14; import cycles are not generated.',
+         'E4 histbfs + E5 enum', '4 C14'),
  'C13': ('exploration', 'bounded-exhaustive enumeration of path strings x operations x layouts against a component-wise containment oracle',
          'Every path string over the 7-segment alphabet up to 5 (quick) / 6 (thorough) segments, absolute/relative, with/without trailing separator, is pushed through os.ResolvePath, through every localfs operation on a real temp tree with sentinels outside the base, and through every VirtualOS operation over 7 mount tables x 4 working directories with recording filesystems; the oracle is an independent component-wise prefix computation. Complete within the stated alphabet and length.',
          'Trusted: the oracle in internal/c13 (filepath.Clean + component-wise prefix); effects observed on a real tmpfs tree. Not covered: segments outside the alphabet, host-planted symlinks.',
